@@ -58,7 +58,7 @@ CLAIMS = {
         "append-then-pop-then-decode on END, append-and-decode on NONE/ALL, the append loop of each action entered for every record the action gets, domain selection by the trace-family registry, "
         "totality of the qualifier table, the generator yielding exactly the non-None results in order, and - as an ownership "
         "rule over all registered decoders and the parser's other methods - nothing else writes the window tables, and every decoder "
-        "returns a trace on every path that does not test the record's own qualifier; K9: whether parse_event_list decodes a list depends on the list only through its first record's code; K6 the pairing domain is chosen by the trace-family registry and nothing else; K12: the record list a trace carries is the window itself or an unconditional record-by-record copy of it). The window contents "
+        "returns a trace on every path that does not test the record's own qualifier; K9: whether parse_event_list decodes a list depends on the list only through its first record's code; K6 the pairing domain is chosen by the trace-family registry and nothing else; K13 every handle_* function of a family module is named by a table row or used by another function; K12: the record list a trace carries is the window itself or an unconditional record-by-record copy of it). The window contents "
         "as a function of an arbitrary history are not decided: each K is such that breaking it changes the traces of some "
         "history, which the seeded-fault self-test demonstrates.",
         "Histories themselves are not enumerated (that would be a different technique).",
@@ -94,7 +94,7 @@ CLAIMS = {
         "each access is shown to be covered on every path by a membership test of the same key, a length fact, a None test, "
         "iteration over the same table, .get, a dominating store or a matching try/except. This quantifies over all "
         "histories because the facts do not depend on which records were seen. Truthiness of a key is not accepted as "
-        "membership. An index that is a conditional expression is judged per alternative. Tuple unpacking is tracked when the length of the unpacked sequence follows from how it is built. The facade's line builders index the shared thread / process tables only under a membership test or "
+        "membership. An index that is a conditional expression is judged per alternative. Tuple unpacking is tracked when the length of the unpacked sequence follows from how it is built (the decoder's window holds any number of records). The facade's line builders index the shared thread / process tables only under a membership test or "
         "through .get.",
         "Enum(x) for undeclared x and .decode() of invalid text are outside the property's premise; windows are non-empty by "
         "C04 so events[0]/events[-1]/ktraces[0] are not tracked; non-constant indexes (bisect results) are C15's.",
@@ -106,7 +106,7 @@ CLAIMS = {
         "whole data, left to right, NULs removed, ids from the START record; continuation records cannot avoid becoming traces "
         "(reported as four known findings - genuine); in all 66 path-taking decoders the looked-up paths appear in lookup "
         "order, the second path computed from the records not consumed by the first; a decoder that joins the payloads of its "
-        "window may select records only by their code, not by a field that differs between START / continuation / END; that the lookup decoder returns a trace for every record it is given is taken over from C04/K11; for calls whose first path argument the kernel never resolves (a table of Darwin facts) a window with one lookup shows it as the last path argument; no decoder locates part of its window by counting another lookup's records. Byte-exact text for each length is not "
+        "window may select records only by their code, not by a field that differs between START / continuation / END; that the lookup decoder returns a trace for every record it is given is taken over from C04/K11; for calls whose first path argument the kernel never resolves (a table of Darwin facts) a window with one lookup shows it as the last path argument; no decoder locates part of its window by counting another lookup's records; no branch of the text accumulation hands a record carrying the START bit its whole data. Byte-exact text for each length is not "
         "decided.",
         "Chunk boundary arithmetic (24 + 32k) is the kernel's and is not modelled.",
         "DESIGN.md §4 C08"),
